@@ -112,6 +112,16 @@ pub fn st_basisconv(a: &[u64; 2], b: &[u64; 2]) -> (i64, i64, i64, i64, u32) {
     if bl > 124 {
         return (e0, e1, f0, f1, bl);
     }
+    if mode != MODE_LONG {
+        // proof direction: only the documented size consequence of
+        // bl_nv <= 124 (|v| < 2^62, hence all four factors within 63 bits);
+        // a weaker contract than the full one below, i.e. more behaviours
+        let lim = (1i64 << 62) + 1;
+        kani::assume(e0 > -lim && e0 < lim && e1 > -lim && e1 < lim);
+        kani::assume(f0 > -lim && f0 < lim && f1 > -lim && f1 < lim);
+        kani::assume(bl >= 1);
+        return (e0, e1, f0, f1, bl);
+    }
     // operands: a <= b < 2^114 (k and n scaled down by 142 bits, n < 2^256)
     const M57: u64 = (1u64 << 57) - 1;
     let al = (a[0] & M57) as i128;
@@ -271,10 +281,14 @@ fn split_glue<const M0: u64, const M1: u64, const M2: u64, const M3: u64>(mode: 
             assert!(G_L192 == 1 && c1 == as_i128(&G_C1));
             assert!(G_NMUL == 3 || G_NMUL == 4);
         }
-        kani::cover!(G_L256 != 0 && G_BL1 > 124);
-        kani::cover!(G_L256 != 0 && G_BL1 <= 124 && G_BL2 > 208);
-        kani::cover!(G_L256 == 0 && G_NMUL == 3);
-        kani::cover!(G_L256 == 0 && G_NMUL == 4);
+        if mode == MODE_LONG {
+            // (reached only when the leftover assertion is gone)
+            kani::cover!(G_L256 != 0 && G_BL1 <= 124 && G_BL2 > 208);
+        } else {
+            kani::cover!(G_L256 != 0 && G_BL1 > 124);
+            kani::cover!(G_L256 == 0 && G_NMUL == 3);
+            kani::cover!(G_L256 == 0 && G_NMUL == 4);
+        }
     }
 }
 
